@@ -2,7 +2,7 @@
   Driver verbs of the server connection-lifecycle family (stateful).
 
   C11 (`ConnGuard`):
-    case <n> conn max=<m> http=<0|1> ws=<0|1> obs=<0|1> path=<server|tower|towerset>   -> case
+    case <n> conn max=<m> http=<0|1> ws=<0|1> obs=<0|1> path=<server|tower|towerset|towermw|towerclone>   -> case
     cg harrive <c> <new|reuse> | cg hdone <c> | cg habort <c> <fin|rst>
     cg wstart <c> <handshakeOk 0|1> | cg wdone <c> | cg wfail <c> <drop|reset>
     cg wclose <c> <close|closecall|halfcall|reset|resetcall|proto|ping|pingcall|stop>
@@ -80,7 +80,7 @@ def parseCgOp (ws : List String) : Option ConnGuard.Op :=
 
 def validPath (tok : String) : Bool :=
   match cnKv "path" tok with
-  | some p => p == "server" || p == "tower" || p == "towerset"
+  | some p => p == "server" || p == "tower" || p == "towerset" || p == "towermw" || p == "towerclone"
   | none => false
 
 /-! ### C10: trace checker
